@@ -32,7 +32,7 @@ struct Config {
   double budget_s = 0;
   int workers = 16;
   std::string evidence, replays = "replays", known = "known_findings.json", logs = "build/logs";
-  int max_report = 4;
+  int max_report = 6;
 };
 
 struct TierParams { long long runs; double budget; const char *level; };
@@ -65,8 +65,34 @@ std::string crash_property(int ph, const std::string &focus) {
 
 std::string self_exe() { char buf[4096]; ssize_t n = readlink("/proc/self/exe", buf, sizeof buf - 1); buf[n > 0 ? n : 0] = 0; return buf; }
 
+// first source position inside the repository named by a sanitizer / assertion report: "file.cpp:line"
+std::string crash_site(const std::string &err) {
+  const char *repo = getenv("THEO_REPO");
+  std::string root = repo && *repo ? repo : "/repo";
+  size_t p = 0;
+  while ((p = err.find(root + "/", p)) != std::string::npos) {
+    size_t q = p + root.size() + 1, e = q;
+    while (e < err.size() && (isalnum((unsigned char)err[e]) || err[e] == '/' || err[e] == '.' || err[e] == '_' || err[e] == '-')) e++;
+    if (e < err.size() && err[e] == ':' && e + 1 < err.size() && isdigit((unsigned char)err[e + 1])) {
+      size_t l = e + 1;
+      while (l < err.size() && isdigit((unsigned char)err[l])) l++;
+      std::string path = err.substr(q, e - q);
+      size_t slash = path.rfind('/');
+      return (slash == std::string::npos ? path : path.substr(slash + 1)) + ":" + err.substr(e + 1, l - e - 1);
+    }
+    p = q;
+  }
+  return "";
+}
+std::string crash_headline(const std::string &e) {
+  size_t p = e.find("runtime error"); if (p == std::string::npos) p = e.find("ERROR: AddressSanitizer"); if (p == std::string::npos) p = e.find("Assertion");
+  if (p == std::string::npos) return e.substr(0, 300);
+  size_t s = e.rfind('\n', p); s = s == std::string::npos ? 0 : s + 1; size_t q = e.find('\n', p);
+  return e.substr(s, (q == std::string::npos ? e.size() : q) - s).substr(0, 400);
+}
+
 // ---------------------------------------------------------------- running one plan in a child (fork, no exec)
-struct ChildResult { bool crashed = false, timed_out = false; int phase = 0; int status = 0; Outcome out; std::string err; };
+struct ChildResult { bool crashed = false, timed_out = false; int phase = 0; int status = 0; Outcome out; std::string err, site; };
 
 ChildResult run_in_child(const Plan &plan, const std::string &only_oracle, int timeout_s, const std::string &errfile) {
   ChildResult r;
@@ -101,9 +127,8 @@ ChildResult run_in_child(const Plan &plan, const std::string &only_oracle, int t
   else {
     try {
       std::string e = read_file(errfile);
-      size_t p = e.find("runtime error"); if (p == std::string::npos) p = e.find("ERROR: AddressSanitizer"); if (p == std::string::npos) p = e.find("Assertion");
-      if (p != std::string::npos) { size_t s = e.rfind('\n', p); s = s == std::string::npos ? 0 : s + 1; size_t q = e.find('\n', p); r.err = e.substr(s, (q == std::string::npos ? e.size() : q) - s); }
-      else r.err = e.substr(0, 300);
+      r.err = crash_headline(e);
+      r.site = crash_site(e);
     } catch (...) {}
   }
   return r;
@@ -115,9 +140,10 @@ Verdict verdict_of(const ChildResult &c, const std::string &focus) {
   Verdict v;
   if (c.crashed) {
     std::string p = crash_property(c.phase, focus);
+    if (c.phase == PH_VMRUN && c.err.find("signed integer overflow") != std::string::npos) p = "C20";
     v.bad = !p.empty() && p == focus;
     v.prop = p;
-    v.oracle = std::string(c.timed_out ? "hang:" : "crash:") + phase_name(c.phase);
+    v.oracle = std::string(c.timed_out ? "hang:" : "crash:") + phase_name(c.phase) + (c.site.empty() || c.timed_out ? "" : "@" + c.site);
     v.msg = c.timed_out ? "no result within the wall-clock limit" : c.err;
     v.hash = hash_str(v.oracle);
     if (p.empty()) { v.prop = "infrastructure"; }
@@ -133,9 +159,10 @@ struct Shrinker {
   std::string oracle;      // the class being minimised
   std::string errfile;
   int evals = 0, max_evals = 600;
+  double t_start = now_s(), max_seconds = 90;
 
   bool reproduces(const Plan &p) {
-    if (evals >= max_evals) return false;
+    if (evals >= max_evals || now_s() - t_start > max_seconds) return false;
     evals++;
     ChildResult c = run_in_child(p, oracle.rfind("crash:", 0) == 0 || oracle.rfind("hang:", 0) == 0 ? "" : oracle, oracle.rfind("hang:", 0) == 0 ? 20 : 60, errfile);
     Verdict v = verdict_of(c, p.prop);
@@ -380,11 +407,15 @@ int check_main(Config cfg) {
             long long run = slots[k].run, sub = slots[k].sub; int ph = slots[k].phase;
             bool hang = WIFSIGNALED(st) && WTERMSIG(st) == SIGKILL;
             std::string p = crash_property(ph, cfg.prop);
-            if (run < 0 || p.empty()) { infra_errors++; fprintf(stderr, "[check] worker %d died outside a library phase (run %lld, phase %s, status %d)\n", k, run, phase_name(ph), st); }
+            std::string werr;
+            try { werr = read_file(cfg.logs + "/" + cfg.prop + ".w" + std::to_string(k) + ".err"); } catch (...) {}
+            if (ph == PH_VMRUN && werr.find("signed integer overflow") != std::string::npos) p = "C20";
+            std::string wsite = crash_site(werr);
+            if (run < 0 || p.empty()) { infra_errors++; fprintf(stderr, "[check] worker %d died outside a library phase (run %lld, phase %s, status %d): %s\n", k, run, phase_name(ph), st, crash_headline(werr).c_str()); }
             else if (p != cfg.prop) { foreign_crashes++; stats.inc(std::string("foreign_crash:") + p + ":" + phase_name(ph)); }
             else {
-              std::string cls = std::string("crash:") + phase_name(ph);
-              if (cand_per_class[cls]++ < 3) { Candidate c{run, sub, true, ph, Outcome()}; c.hang = hang; cands.push_back(c); }
+              std::string cls = std::string("crash:") + phase_name(ph) + "@" + wsite;
+              if (cand_per_class[cls]++ < 2) { Candidate c{run, sub, true, ph, Outcome()}; c.hang = hang; cands.push_back(c); }
               stats.inc("crash:" + std::string(phase_name(ph)));
             }
             evaluations++;
@@ -442,7 +473,7 @@ int check_main(Config cfg) {
     rj.set("property", vf.prop).set("oracle", vf.oracle).set("message", vf.msg).set("event_log_hash", hex64(vf.hash)).set("found_by", "seed " + std::to_string(cfg.seed) + " run " + std::to_string(c.run) + " sub " + std::to_string(c.sub) + " tier " + cfg.tier)
         .set("minimisation", "ops " + std::to_string(before_ops) + " -> " + std::to_string(m.ops.size()) + ", text " + std::to_string(before_text) + " -> " + std::to_string(after_text) + " bytes, " + std::to_string(sh.evals) + " re-runs")
         .set("replay_cmd", "./check replay <this file>").set("plan", plan_to_json(m));
-    std::string oname = vf.oracle; for (auto &ch : oname) if (ch == ':' || ch == '/') ch = '_';
+    std::string oname = vf.oracle; for (auto &ch : oname) if (ch == ':' || ch == '/' || ch == '@') ch = '_';
     std::string path = cfg.replays + "/" + cfg.prop + "-" + oname + "-" + std::to_string(cfg.seed) + "-" + std::to_string(c.run) + ".json";
     write_file(path, rj.dump(1));
     // known finding?
